@@ -149,6 +149,7 @@ def pre(pid, tier, seed):
         info["locks"] = tab["locks"]
         info["guarded_fields"] = tab["fields"]
         info["orders"] = tab.get("orders")
+        info["inferred_needs"] = tab.get("inferred_needs")
         rc, out = _run(["coqc"] + _coq_args([gen_dir]) + [gen], cwd=gen_dir)
         if rc != 0:
             info["broken"] = "Gen/LockSkelGen.v does not compile: " + out[-500:]
